@@ -44,7 +44,7 @@ def run_one(cond, twin=False):
         cmd.append('--twin')
     t0 = time.time()
     try:
-        r = subprocess.run(cmd, capture_output=True, text=True, env=pyenv(), timeout=t * 3 + 120)
+        r = subprocess.run(cmd, capture_output=True, text=True, env=pyenv(cond.get('env')), timeout=t * 3 + 120)
         out, err = r.stdout, r.stderr
     except subprocess.TimeoutExpired:
         out, err = '', 'outer timeout'
